@@ -184,10 +184,39 @@ func main() {
 		goos     = flag.String("goos", "", "override GOOS")
 		goarch   = flag.String("goarch", "", "override GOARCH")
 		expect   = flag.String("expect", "", "self-test: comma list of rule[:keysubstr] that must be violated; exit 0 iff all are")
+		listFn   = flag.Bool("list-funcs", false, "print the function vocabulary of the tree (for refs/known_funcs.txt)")
 	)
 	flag.Parse()
 	start := time.Now()
 	verifDir = *verif
+	if *listFn {
+		L, err := Load(*repo, *goos, *goarch)
+		if err != nil {
+			fmt.Fprintln(os.Stderr, "load:", err)
+			os.Exit(2)
+		}
+		var out []string
+		for _, pn := range []string{"stack", "stack/webstack", "internal", ""} {
+			for _, f := range L.SrcFuncs(pn) {
+				if f.Parent() == nil {
+					out = append(out, funcKey(f))
+				}
+			}
+		}
+		sort.Strings(out)
+		for _, s := range out {
+			fmt.Println(s)
+		}
+		return
+	}
+	if b, err := os.ReadFile(filepath.Join(*verif, "refs", "known_funcs.txt")); err == nil {
+		knownFuncs = map[string]bool{}
+		for _, l := range strings.Split(string(b), "\n") {
+			if l = strings.TrimSpace(l); l != "" && !strings.HasPrefix(l, "#") {
+				knownFuncs[l] = true
+			}
+		}
+	}
 	if *dump != "" {
 		L, err := Load(*repo, *goos, *goarch)
 		if err != nil {
